@@ -318,3 +318,24 @@ func (tk *Ticker) Reset(d time.Duration) {
 	tk.period = d
 	rt.arm(&tk.t, d)
 }
+
+// Lurk blocks the calling thread for at most d of virtual time, but the explorer may release it at any
+// scheduling point before that (one deviation): "this may happen at any moment" for closers and the like.
+//
+//go:norace
+func Lurk(d time.Duration) {
+	r := rt
+	if r == nil || r.aborting {
+		return
+	}
+	t := r.cur
+	tm := &rtimer{}
+	tm.fire = func(now int64) {
+		t.lurk = nil
+		absorb(t, H{uint64(now), 0x1b})
+		r.ready(t)
+	}
+	r.arm(tm, d)
+	t.lurk = tm
+	r.block("lurk")
+}
